@@ -126,6 +126,8 @@ func workerMain() {
 		exact := make([]byte, len(b)) // exact capacity
 		copy(exact, b)
 		outcome, re, extra, lenv, chash := 0, []byte(nil), "", -1, "-"
+		var ms0, ms1 runtime.MemStats
+		runtime.ReadMemStats(&ms0)
 		func() {
 			defer func() {
 				if r := recover(); r != nil {
@@ -160,6 +162,12 @@ func workerMain() {
 		}()
 		if extra == "" {
 			extra = "-"
+		}
+		// memory proportional to the input: everything allocated by the decode (and the re-encode of
+		// its result) against 1 KiB per input byte plus 16 MiB
+		runtime.ReadMemStats(&ms1)
+		if alloc := ms1.TotalAlloc - ms0.TotalAlloc; outcome < 2 && alloc > uint64(len(b))*1024+16<<20 {
+			outcome, extra = 4, fmt.Sprintf("allocated_%d_MiB_for_%d_bytes", alloc>>20, len(b))
 		}
 		fmt.Fprintf(out, "%d %s %s %d %s\n", outcome, hex.EncodeToString(re)+".", extra, lenv, chash)
 		out.Flush()
